@@ -1,0 +1,23 @@
+//! verif-hooks only (VribQuery): what the unicast store itself (the
+//! rotonda-store dependency) iterates for one ingress id, i.e. the raw input
+//! of `Rib::match_ingress_id` / the per-ingress listing of the HTTP API.
+//! Used to tell what the dependency answered from what rotonda made of it.
+use inetnum::addr::Prefix;
+use rotonda_store::epoch;
+
+impl super::Rib {
+    /// The prefixes `iter_records_for_mui_v4` + `iter_records_for_mui_v6`
+    /// yield for `mui` (`include_withdrawals = false`), in that order.
+    pub fn verif_store_mui_prefixes(&self, mui: u32) -> Option<Vec<Prefix>> {
+        let store = (*self.unicast).as_ref()?;
+        let guard = &epoch::pin();
+        let mut res = store
+            .iter_records_for_mui_v4(mui, false, guard)
+            .map(|r| r.prefix)
+            .collect::<Vec<_>>();
+        res.extend(
+            store.iter_records_for_mui_v6(mui, false, guard).map(|r| r.prefix),
+        );
+        Some(res)
+    }
+}
